@@ -19,6 +19,24 @@ CHECKS = {
          "seeded fault-sequence search; outcome-class oracle, pull counter, step cap / watchdog"),
  "C13": ("fault_enumeration", "6", "Strict rejections from the C03/C04 fault enumeration with the fault at any position incl. the final field and the input cut exactly at the problem; remaining-bytes attribute compared with the reference suffix.",
          "medium faults + crash point at the fault + reference-model byte accounting"),
+ "C07": ("exploration", "6", "Purely differential: the same bytes (well-formed, size/value/length/history faults, random) are decoded by a strict task and a warn task of the same simulated run; prefixes up to the first problem and the error details (snapshotted at emission) must agree.",
+         "two-task differential simulation over fault-injected inputs"),
+ "C08": ("fault_enumeration", "6", "Warn-mode decodes of single- and multi-fault inputs (all size-field kinds, values, truncation/surplus, message loss/duplication/reordering, random bytes): nothing may escape except a justified ValueConstraintViolatedError; a model-light candidate-set tiling checker verifies that the emitted fields tile the input with skips exactly to the ends the reported size fields declare; value-only faults are compared with the reference model's lenient walk.",
+         "fault-sequence injection + tiling invariant over the recorded event history + lenient reference walk"),
+ "C09": ("exploration", "6", "Generated conversations (all command codes, sessions, encryption, failed responses, trailing command) decoded as one stream and message by message (command code / flag from the generator) as tasks of one run; events, objects and message boundaries (pull counts) compared.",
+         "history-based simulation: stream task vs per-message tasks; pull-count boundary invariant"),
+ "C10": ("exploration", "6", "Per-event look-ahead invariant checked from the simulator-owned pull counter while the run proceeds (binary source, hex and swtpm-log character sources, short-read files); prefix stability at crash points; equality across 9 source kinds, short-read files and multi-file streams.",
+         "byte-source seam with pull counting, crash points, source-kind swarm"),
+ "C11": ("exploration", "6", "Decoder object vs events_to_obj, obj_to_events of both vs decoded events (==, lengths, value classes), re-encoding, Canonical facade, on swept and sampled well-formed inputs biased to absent parts, with bystander decodes in between.",
+         "seeded traffic + round-trip oracles inside scheduled runs"),
+ "C12": ("exploration", "6", "2-4 decode tasks per run over messages with encrypted parameter areas of different commands, histories A,B,A / A,A / A,B,C,A and step-wise interleavings incl. pre-emption inside a byte pull and cancelled bystanders; every decode is compared (==, type identity) with solo decodes of the same arguments at the start and the end of the run and with stream slices.",
+         "seeded scheduler over generator tasks sharing process-global state (the property the scheduler exists for)"),
+ "C14": ("exploration", "6", "Printers run as lazy consumer tasks over strict and warn decodes of all input families; rows are parsed by tokens and matched against rows derived independently from the recorded events (one row per structure/primitive/warning, one per byte buffer, bit rows, depth, hex column, text form).",
+         "consumer-stage simulation over fault-injected event streams; token-level row oracle"),
+ "C15": ("exploration", "6", "Generated streams rendered into hex / swtpm-log / pcapng containers by independent writers with seeded noise (interleaved control channel, runt packets, mssim trailer, Ethernet/raw-IP), container faults (torn pair, non-hex incl. int()-syntax characters, lower case), small-alphabet strings for the hex scanner; front-end vs direct decode; Auto vs matching front-end; ValueError for non-hex text.",
+         "container writer noise + torn/garbled storage faults; independent reference readers"),
+ "C19": ("exploration", "6", "CLI invocations in-process (patched argv/stdin with short reads/stdout, real temp files, multi-file streams) compared with library results for the same bytes; refusals; `type` against a strict decode under every type; `example` blocks re-decoded; a quota re-run as real subprocesses to validate the harness.",
+         "process-I/O seam simulation (argv, files, stdin short reads, stdout, exit status) + differential oracle"),
 }
 LEVEL_NOTE = ("Trusted base: the reference interpreter (sim/model.py) and the pinned layout snapshot (layout/tpm20_layout.json, "
               "extracted once from f0740e3 and audited by membership probing), the generator self-check (tree items == "
